@@ -114,6 +114,14 @@ class TriangularLinearOperator(LinearOperator, _TriangularLinearOperatorBase):
         # (`other` is a constant or a batch of constants: hand it to the wrapped operator's own hook)
         return self.__class__(self._tensor._mul_constant(other), upper=self.upper)
 
+    def _mul_matrix(
+        self: Float[LinearOperator, "... #M #N"],
+        other: Union[Float[torch.Tensor, "... #M #N"], Float[LinearOperator, "... #M #N"]],
+    ) -> Float[LinearOperator, "... M N"]:
+        # The elementwise product with any matrix is triangular again.  (The default builds a MulLinearOperator from
+        # root decompositions, which is only valid for PSD operands - triangular operators are not.)
+        return self.__class__(self.to_dense() * other.to_dense(), upper=self.upper)
+
     def _root_decomposition(
         self: Float[LinearOperator, "... N N"]
     ) -> Union[Float[torch.Tensor, "... N N"], Float[LinearOperator, "... N N"]]:
